@@ -32,6 +32,9 @@ func propC11(c *Ctx, r *Report) {
 	r.floor("size.signcheck", 3)
 	r.Clauses = append(r.Clauses, "type lookups report (E49): no lookup of a user-written type uses its result only on success and drops the error")
 	c.runErrNilOnly(r, "errflow.nilonly", inPkgs("wgsl"), nil)
+	r.Clauses = append(r.Clauses, innerFirstClause+" - otherwise const_assert and case selectors are judged against the shadowed module-scope constant")
+	c.runInnerFirst(r, "lookup.innerfirst", "wgsl/internal/lower", nil)
+	r.floor("lookup.innerfirst", 2)
 	r.floor("errflow.usertype-lookups", 20)
 	r.Clauses = append(r.Clauses, argsRoleClause)
 	c.runArgsNameRole(r, "args.namerole", inPkgs("wgsl", "ir"))
